@@ -9,10 +9,13 @@ From LV Require Import model.Fetcher spec.FetcherSpec proofs.FetcherProofs.
 Import ListNotations.
 
 (* SAFETY, for every configuration and EVERY event sequence (any interleaving of announcements,
-   receipts, timer deliveries and passes, any oracle answers, any times): every request (peer, id)
+   receipts, timer deliveries and passes, any random choices, any times, any callback answers as long
+   as OnlyInterested answers with ids of the batch it was asked about - [answers_sublist]; the
+   hypothesis is necessary, see fetcher_safety_needs_sublist in proofs/FetcherProofs.v: the fetcher
+   stores and requests whatever the callback returns): every request (peer, id)
    goes to a peer that announced id while id was reported interesting, and id has not since been
    reported received, nor reported uninteresting at a pass - until it is announced anew. *)
-Theorem C16_safety : forall c t0 tr, safe_run c (init t0) [] tr.
+Theorem C16_safety : forall c t0 tr, answers_sublist tr -> safe_run c (init t0) [] tr.
 Proof. exact fetcher_safety. Qed.
 
 (* LIVENESS as a bounded-response invariant.  (1) In every reachable state (non-decreasing clock):
